@@ -39,11 +39,15 @@ def PyKey.ofStr (s : String) : PyKey := ⟨.text s, true, true, s⟩
 /-- `str(key)`: always an exact `str`. -/
 def pyStr (k : PyKey) : PyKey := PyKey.ofStr k.text
 
-/-- A dictionary: `exact` = `type(data) is dict` (else an instance of a subclass: OrderedDict, defaultdict, …);
-the items in insertion order.  In a real dictionary the `id`s are pairwise different; nothing below needs that
-(a lookup takes the first item). -/
+/-- A dictionary-like argument: `exact` = `type(data) is dict`; `isDict` = `isinstance(data, dict)` (an exact dict or an
+instance of a subclass: OrderedDict, defaultdict, …; `false`: a `Mapping` that is no dict -- UserDict, ChainMap,
+MappingProxyType, a class of the caller's); `mutable` = `isinstance(data, MutableMapping)`; the items in iteration
+order.  In a real mapping the `id`s are pairwise different; nothing below needs that (a lookup takes the first item),
+nor that `exact → isDict → mutable`. -/
 structure PyDict (α : Type) where
   exact : Bool
+  isDict : Bool
+  mutable : Bool
   items : List (PyKey × α)
   deriving Repr
 
@@ -59,12 +63,13 @@ def setItem (k : PyKey) (v : α) : List (PyKey × α) → List (PyKey × α)
   | [] => [(k, v)]
   | (k', v') :: rest => if k'.id = k.id then (k', v) :: rest else (k', v') :: setItem k v rest
 
-/-- `dict(data)` / `data.copy()` / `{**data}`: an exact dictionary with the same items. -/
-def PyDict.copy (d : PyDict α) : PyDict α := ⟨true, d.items⟩
+/-- `dict(data)` / `data.copy()` / `{**data}`: an exact dictionary with the same items (for a `Mapping` that is no dict:
+`dict(m)` reads `m.keys()` and `m[key]`, the items of the mapping it stands for). -/
+def PyDict.copy (d : PyDict α) : PyDict α := ⟨true, true, true, d.items⟩
 
 /-- `{<fk>: <fv> for key, value in data.items()}`. -/
 def PyDict.comp (fk : PyKey → α → PyKey) (fv : PyKey → α → α) (d : PyDict α) : PyDict α :=
-  ⟨true, d.items.foldl (fun acc kv => setItem (fk kv.1 kv.2) (fv kv.1 kv.2) acc) []⟩
+  ⟨true, true, true, d.items.foldl (fun acc kv => setItem (fk kv.1 kv.2) (fv kv.1 kv.2) acc) []⟩
 
 /-- `all(<p> for key in data)` / `any(…)`. -/
 def PyDict.allKeys (p : PyKey → Bool) (d : PyDict α) : Bool := d.items.all fun kv => p kv.1
